@@ -153,6 +153,13 @@ def make_time(spec: dict) -> datetime:
         return utc.astimezone(timezone(timedelta(seconds=int(rp[7:]))))
     if rp.startswith("pytz:"):
         return utc.astimezone(pytz.timezone(rp[5:]))
+    if rp.startswith("pytzraw:"):
+        # the zone object attached directly as tzinfo (the classic pytz misuse): the value carries the zone's first (LMT) offset,
+        # which is still a perfectly well defined instant
+        tz = pytz.timezone(rp[8:])
+        probe = datetime(2000, 1, 1, tzinfo=tz)
+        wall = (utc + probe.utcoffset()).replace(tzinfo=None)
+        return wall.replace(tzinfo=tz)
     if rp.startswith("zi:"):
         return utc.astimezone(ZoneInfo(rp[3:]))
     raise ValueError(rp)
